@@ -26,6 +26,8 @@ import (
 	"path/filepath"
 	"strconv"
 	"strings"
+	"sync"
+	"time"
 
 	"github.com/google/pprof/internal/binutils"
 	"github.com/google/pprof/internal/plugin"
@@ -35,6 +37,13 @@ import (
 // fake tools (self re-exec)
 
 const c13FakeEnv = "PVC13_FAKE_TOOLS"
+const c13FakeDelayEnv = "PVC13_FAKE_DELAY_US" // fakes wait this long between reading a request and answering
+
+func c13FakeDelay() {
+	if us, err := strconv.Atoi(os.Getenv(c13FakeDelayEnv)); err == nil && us > 0 {
+		time.Sleep(time.Duration(us) * time.Microsecond)
+	}
+}
 
 func init() {
 	if os.Getenv(c13FakeEnv) == "" {
@@ -54,9 +63,9 @@ func init() {
 }
 
 type c13FakeSym struct {
-	start, size    uint64
-	nmName, short  string
-	typ, inlined   string
+	start, size   uint64
+	nmName, short string
+	typ, inlined  string
 }
 
 // table file: one symbol per line "start size nmName shortName type inlined|-" (hex numbers)
@@ -113,6 +122,7 @@ func c13FakeAddr2lineMain() {
 		if err != nil {
 			continue
 		}
+		c13FakeDelay()
 		fmt.Fprintf(w, "0x%016x\n", a)
 		if s := c13Containing(t, a); s != nil {
 			if s.inlined != "-" {
@@ -133,6 +143,7 @@ func c13FakeLLVMMain() {
 	tabs := map[string][]c13FakeSym{}
 	for in.Scan() {
 		f := strings.Fields(in.Text())
+		c13FakeDelay()
 		if len(f) != 3 {
 			fmt.Fprintf(w, "{}\n")
 			w.Flush()
@@ -189,6 +200,7 @@ type c13SymCase struct {
 	Span    hx          `json:"span"` // mapping size
 	Biases  []hx        `json:"biases"`
 	Lookups []c13Lookup `json:"lookups"`
+	Conc    int         `json:"goroutines,omitempty"` // > 1: lookups after the per-handle warm-up are issued concurrently
 }
 
 func genSymCase(r *Rng, mode string) *c13SymCase {
@@ -423,28 +435,45 @@ func (e *c13Env) runSymHist(cs *c13SymCase) {
 		}
 		return of, ""
 	}
-	for li, lk := range cs.Lookups {
-		if lk.H < 0 || lk.H >= len(cs.Biases) {
-			continue
-		}
-		bias, x := uint64(cs.Biases[lk.H]), uint64(lk.Addr)
-		one := *cs
-		one.Lookups = cs.Lookups[:li+1] // the history up to and including this lookup
+	// ensure opens the handle of a lookup (sequentially: Open is not part of the concurrent phase)
+	ensure := func(lk c13Lookup, one *c13SymCase) bool {
 		if handles[lk.H] == nil {
-			of, msg := open(bu, file, bias)
+			of, msg := open(bu, file, uint64(cs.Biases[lk.H]))
 			if of == nil {
-				c.Violation("C13/symbolizer/"+cs.Mode+"/open", "Open fails on the synthetic object: "+msg, &one)
-				return
+				c.Violation("C13/symbolizer/"+cs.Mode+"/open", "Open fails on the synthetic object: "+msg, one)
+				return false
 			}
 			handles[lk.H] = of
 		}
-		var fr []plugin.Frame
+		return true
+	}
+	type symRes struct {
+		fr  []plugin.Frame
+		msg string // panic / error text
+	}
+	call := func(lk c13Lookup) (r symRes) {
 		var err error
-		if pn := c13Safely(func() { fr, err = handles[lk.H].SourceLine(x) }); pn != "" || err != nil {
-			c.Violation("C13/symbolizer/"+cs.Mode+"/error", fmt.Sprintf("SourceLine(%#x) at bias %#x: %v %v", x, bias, pn, err), &one)
-			return
+		pn := c13Safely(func() { r.fr, err = handles[lk.H].SourceLine(uint64(lk.Addr)) })
+		if pn != "" || err != nil {
+			r.msg = fmt.Sprintf("%v %v", pn, err)
+			if r.msg == "" {
+				r.msg = "error"
+			}
 		}
-		got, gotInl := c13Frames(fr)
+		return
+	}
+	tag := ""
+	if cs.Conc > 1 {
+		tag = "concurrent/"
+	}
+	// check applies the three oracles to one answer; false = stop the case
+	check := func(li int, lk c13Lookup, r symRes, one *c13SymCase) bool {
+		bias, x := uint64(cs.Biases[lk.H]), uint64(lk.Addr)
+		if r.msg != "" {
+			c.Violation("C13/symbolizer/"+cs.Mode+"/"+tag+"error", fmt.Sprintf("SourceLine(%#x) at bias %#x: %s", x, bias, r.msg), one)
+			return false
+		}
+		got, gotInl := c13Frames(r.fr)
 		want, wantInl, owner, nmIdx := cs.expect(c, bias, x)
 		c.Res.ModelCompared++
 
@@ -469,7 +498,11 @@ func (e *c13Env) runSymHist(cs *c13SymCase) {
 		if owner != nil {
 			cls = "inside"
 		}
-		c.Res.Hit(fmt.Sprintf("sym:%s,%s,handle#%d", cs.Mode, cls, min(lk.H, 3)))
+		if cs.Conc > 1 {
+			c.Res.Hit(fmt.Sprintf("sym:%s,%s,concurrent", cs.Mode, cls))
+		} else {
+			c.Res.Hit(fmt.Sprintf("sym:%s,%s,handle#%d", cs.Mode, cls, min(lk.H, 3)))
+		}
 		if !okDirect {
 			kind := "wrong-function"
 			if got == "" {
@@ -479,30 +512,119 @@ func (e *c13Env) runSymHist(cs *c13SymCase) {
 			if owner != nil {
 				on = owner.NMName
 			}
-			c.Violation("C13/symbolizer/"+cs.Mode+"/"+kind, fmt.Sprintf("%s chain, file opened at %d biases: SourceLine(%#x) on the handle with bias %#x (link-time %#x, inside %s) names %q", cs.Mode, len(cs.Biases), x, bias, x-bias, on, got), &one)
-			continue
+			how := fmt.Sprintf("file opened at %d biases", len(cs.Biases))
+			if cs.Conc > 1 {
+				how += fmt.Sprintf(", lookups issued from %d goroutines on shared handles", cs.Conc)
+			}
+			c.Violation("C13/symbolizer/"+cs.Mode+"/"+tag+kind, fmt.Sprintf("%s chain, %s: SourceLine(%#x) on the handle with bias %#x (link-time %#x, inside %s) names %q", cs.Mode, how, x, bias, x-bias, on, got), one)
+			return true
 		}
 		if got != want || gotInl != wantInl || nmIdx == -2 {
-			c.Disagree("C13/model/symbolizer-"+cs.Mode, fmt.Sprintf("SourceLine(%#x) bias %#x: go=(%q,%q) expected=(%q,%q)", x, bias, got, gotInl, want, wantInl), "correspondence Elf.addrInfo∘relocate + addr2line merge rule ~ binutils SourceLine", &one)
+			c.Disagree("C13/model/symbolizer-"+cs.Mode, fmt.Sprintf("SourceLine(%#x) bias %#x: go=(%q,%q) expected=(%q,%q)", x, bias, got, gotInl, want, wantInl), "correspondence Elf.addrInfo∘relocate + addr2line merge rule ~ binutils SourceLine", one)
 		}
-		// reference: a fresh Binutils instance that only ever sees this bias, on a private copy
+		// reference: a fresh Binutils instance that only ever sees this bias, on a private copy,
+		// used strictly sequentially
 		if refs[lk.H] == nil {
 			rf := s.writeObject(e, cs, fmt.Sprintf("ref%d", lk.H))
 			cleanup = append(cleanup, rf)
 			of, msg := open(s.newBinutils(cs.Mode), rf, bias)
 			if of == nil {
-				c.Violation("C13/symbolizer/"+cs.Mode+"/open", "Open fails on the synthetic object (reference): "+msg, &one)
-				return
+				c.Violation("C13/symbolizer/"+cs.Mode+"/open", "Open fails on the synthetic object (reference): "+msg, one)
+				return false
 			}
 			refs[lk.H] = of
 		}
 		var rfr []plugin.Frame
+		var err error
 		if pn := c13Safely(func() { rfr, err = refs[lk.H].SourceLine(x) }); pn != "" || err != nil {
-			c.Violation("C13/symbolizer/"+cs.Mode+"/error", fmt.Sprintf("reference SourceLine(%#x): %v %v", x, pn, err), &one)
-			return
+			c.Violation("C13/symbolizer/"+cs.Mode+"/error", fmt.Sprintf("reference SourceLine(%#x): %v %v", x, pn, err), one)
+			return false
 		}
 		if rg, ri := c13Frames(rfr); rg != got || ri != gotInl {
-			c.Violation("C13/symbolizer/"+cs.Mode+"/history-dependent", fmt.Sprintf("SourceLine(%#x) at bias %#x gives %q after a history of opens at other biases but %q on a fresh instance", x, bias, got, rg), &one)
+			c.Violation("C13/symbolizer/"+cs.Mode+"/"+tag+"history-dependent", fmt.Sprintf("SourceLine(%#x) at bias %#x gives %q after this history but %q on a fresh instance used sequentially", x, bias, got, rg), one)
+		}
+		return true
+	}
+
+	if cs.Conc <= 1 {
+		for li, lk := range cs.Lookups {
+			if lk.H < 0 || lk.H >= len(cs.Biases) {
+				continue
+			}
+			one := *cs
+			one.Lookups = cs.Lookups[:li+1] // the history up to and including this lookup
+			if !ensure(lk, &one) {
+				return
+			}
+			if !check(li, lk, call(lk), &one) {
+				return
+			}
+		}
+		return
+	}
+
+	// concurrent variant: handles are opened and warmed up (first lookup: lazy base computation and
+	// tool start) sequentially, then the remaining lookups are issued from cs.Conc goroutines against
+	// the SAME handles. The fake tools answer strictly in request order, after a small delay.
+	os.Setenv(c13FakeDelayEnv, "150")
+	defer os.Unsetenv(c13FakeDelayEnv)
+	res := make([]symRes, len(cs.Lookups))
+	warmed := make([]bool, len(cs.Biases))
+	var rest []int
+	for li, lk := range cs.Lookups {
+		if lk.H < 0 || lk.H >= len(cs.Biases) {
+			continue
+		}
+		if !warmed[lk.H] {
+			if !ensure(lk, cs) {
+				return
+			}
+			res[li] = call(lk)
+			warmed[lk.H] = true
+			if !check(li, lk, res[li], cs) {
+				return
+			}
+			continue
+		}
+		rest = append(rest, li)
+	}
+	start := make(chan struct{})
+	done := make(chan struct{})
+	var wg sync.WaitGroup
+	for g := 0; g < cs.Conc; g++ {
+		wg.Add(1)
+		go func(g int) {
+			defer wg.Done()
+			<-start
+			for k := g; k < len(rest); k += cs.Conc {
+				li := rest[k]
+				res[li] = call(cs.Lookups[li])
+			}
+		}(g)
+	}
+	close(start)
+	go func() { wg.Wait(); close(done) }()
+	select {
+	case <-done:
+	case <-time.After(20 * time.Second):
+		c.Violation("C13/symbolizer/"+cs.Mode+"/concurrent/hang", fmt.Sprintf("%s chain: %d goroutines issuing %d lookups on shared handles did not finish within 20 s (desynchronised tool pipe?)", cs.Mode, cs.Conc, len(rest)), cs)
+		for _, h := range handles { // closing the tools' pipes releases blocked readers
+			if h != nil {
+				go h.Close()
+			}
+		}
+		select {
+		case <-done:
+		case <-time.After(5 * time.Second):
+		}
+		for i := range handles {
+			handles[i] = nil
+		}
+		return
+	}
+	for _, li := range rest {
+		if !check(li, cs.Lookups[li], res[li], cs) {
+			return
 		}
 	}
 }
@@ -516,6 +638,24 @@ func (e *c13Env) runSymStreams(r *Rng) {
 		for i, n := 0, st.n*c.Scale; i < n; i++ {
 			cs := genSymCase(r, st.mode)
 			c.Res.Count(fmt.Sprint("symhist ", *cs), len(cs.Funcs) >= 2 && len(cs.Biases) >= 2)
+			e.runSymHist(cs)
+		}
+	}
+	// concurrent variant: few cases, more lookups, 4–8 goroutines on the shared handles
+	for _, st := range []struct {
+		mode string
+		n    int
+	}{{"llvm", 5}, {"a2l", 4}, {"nm", 2}} {
+		for i, n := 0, st.n*c.Scale; i < n; i++ {
+			cs := genSymCase(r, st.mode)
+			cs.Conc = 4 + r.Intn(5)
+			for len(cs.Lookups) < 48 { // enough in-flight requests per handle
+				k := r.Intn(len(cs.Lookups))
+				f := cs.Funcs[r.Intn(len(cs.Funcs))]
+				cs.Lookups = append(cs.Lookups, c13Lookup{H: cs.Lookups[k].H, Addr: cs.Biases[cs.Lookups[k].H] + f.Start + hx(r.Intn(int(f.Size)))})
+			}
+			c.Res.Count(fmt.Sprint("symhist-conc ", *cs), len(cs.Funcs) >= 2)
+			c.Res.Hit("sym:concurrent-cases," + st.mode)
 			e.runSymHist(cs)
 		}
 	}
